@@ -56,12 +56,7 @@ def scanExp (s : List Char) : (Bool × List Nat) × List Char :=
     or `none` when the pattern does not match here. Backtracking outcome:
     `[0-9]*` greedy; a `.` is consumed only if a digit follows it; without it the integer
     digits must be non-empty (the last digit is given back to `[0-9]+`). -/
-def scanFloat (s : List Char) : Option (NumLit × List Char) :=
-  let (neg, s1) : Bool × List Char :=
-    match s with
-    | '-' :: r => (true, r)
-    | '+' :: r => (false, r)
-    | _ => (false, s)
+def scanFloatBody (neg : Bool) (s1 : List Char) : Option (NumLit × List Char) :=
   let (ints, s2) := takeDigits s1
   let (fracs, s3) : List Nat × List Char :=
     match s2 with
@@ -73,6 +68,12 @@ def scanFloat (s : List Char) : Option (NumLit × List Char) :=
   else
     let ((eneg, eds), s4) := scanExp s3
     some (⟨neg, ints, fracs, eneg, eds⟩, s4)
+
+def scanFloat (s : List Char) : Option (NumLit × List Char) :=
+  match s with
+  | '-' :: r => scanFloatBody true r
+  | '+' :: r => scanFloatBody false r
+  | _ => scanFloatBody false s
 
 /-- PATTERN_COMMAWSP character class `[ ,\t\n\x09\x0A\x0C\x0D]` -/
 def isCommaWsp (c : Char) : Bool :=
